@@ -7,11 +7,12 @@ use std::io::Read;
 pub struct Chunked {
     pub chunks: VecDeque<Vec<u8>>,
     pub reads: usize,
+    phase: Option<usize>,
 }
 
 impl Chunked {
     pub fn new(chunks: Vec<Vec<u8>>) -> Self {
-        Chunked { chunks: chunks.into_iter().filter(|c| !c.is_empty()).collect(), reads: 0 }
+        Chunked { chunks: chunks.into_iter().filter(|c| !c.is_empty()).collect(), reads: 0, phase: None }
     }
     pub fn remaining(&self) -> usize {
         self.chunks.iter().map(|c| c.len()).sum()
@@ -26,7 +27,10 @@ impl Read for Chunked {
         }
         // every third call is interrupted by a signal (EINTR): no data is lost, the caller has to retry — which
         // `read_until`, `read_exact` and `read_to_end` do, and which any hand-written read loop must do as well
-        if self.reads % 3 == 2 && !self.chunks.is_empty() {
+        // (the phase of the schedule follows from the data, so that the very first read of a stream is interrupted for a third
+        // of the inputs, the second for another third)
+        let phase = self.phase.get_or_insert_with(|| self.chunks.iter().map(|c| c.len()).sum::<usize>() % 3);
+        if (self.reads + *phase) % 3 == 2 && !self.chunks.is_empty() {
             return Err(std::io::Error::new(std::io::ErrorKind::Interrupted, "interrupted"));
         }
         match self.chunks.pop_front() {
